@@ -480,6 +480,35 @@ def _where(a, b):
 
 FMT_IN = {"fasta": [], "phylip": ["-p"], "nexus": ["-x"], "clustal": ["-u"]}
 
+# names routed to the protein branch of `compute distance` / `build distboot` (models/protein ModelStringToInt knows the first
+# seven; a name it does not know - "dayhoff", upper case - makes the harness answer `err nomodel` and the command must fail too)
+PROT_MODEL_NAMES = ("dayoff", "jtt", "mtrev", "lg", "wag", "hivb", "ab", "dayhoff", "JTT", "LG")
+
+
+_DEC12 = re.compile(r"^-?\d+\.\d{12}$")
+
+
+def _dist_entry_ok(txt, x):
+    """one printed entry of a distance matrix against the library's float: `%.12f` of it (NaN / +Inf / -Inf spelled as Go does;
+    a finite value has exactly 12 decimals and is within the rounding of that format)"""
+    if x != x:
+        return txt == "NaN"
+    if x in (float("inf"), float("-inf")):
+        return txt in ("+Inf", "-Inf", "Inf") and (txt.startswith("-") == (x < 0))
+    try:
+        return bool(_DEC12.match(txt)) and abs(float(txt) - x) <= 5.1e-13 * max(1.0, abs(x))
+    except ValueError:
+        return False
+
+
+def _dist_lib_line(model, rmgaps, gapmode, rmamb, gamma, alpha, rng4, rows):
+    """the harness line of the LIBRARY call behind `goalign compute distance -m <model>` on one alignment: dna.DistMatrix
+    (`distmatrix`) or, for a protein model, NewProtDistModel / InitModel(nil, nil) / MLDist on a fresh model object
+    (`protdistmatrix`; --gap-mut, --rm-ambiguous and the ranges do not reach the protein code)"""
+    if model in PROT_MODEL_NAMES:
+        return "\t".join(["protdistmatrix", model, rmgaps, gamma, alpha if alpha != "0" else "0", rows])
+    return "\t".join(["distmatrix", model, rmgaps, gapmode, rmamb, gamma, alpha if alpha != "0" else "1", "_", rng4, rows])
+
 
 def run_det_case(c, timeout_s=120.0):
     """ops `det*` (property C11), run on the goalign binary built from the working tree.
@@ -488,6 +517,7 @@ def run_det_case(c, timeout_s=120.0):
       detchain <stdin> <fmt,fmt,...,fmt>                          reformat chain back to the first format
       detboot  <stdin> <model> <n> <frac num/den> <seed> <threads> seqboot + compute distance = distboot
       detmulti <aln;;aln;;...> <files> <argv...>                  multi-alignment input = the alignments one by one
+      detannot <stdin> <annotation> <argv with @ANN@...>          annotation file plain = .gz = on the standard input
     Result: `same rc=<rc> out=<bytes> files=<k>` or `differ <where> ...`."""
     try:
         stdin = b"" if c.args[0] == "_" else _unesc(c.args[0])
@@ -540,7 +570,7 @@ def run_det_case(c, timeout_s=120.0):
             gamma = "0" if alpha == "0" else "1"
             libs = []
             for rows in groups.split(";;"):
-                line = "\t".join(["distmatrix", model, rmgaps, "0", "0", gamma, alpha if alpha != "0" else "1", "_", "-1,-1,-1,-1", rows])
+                line = _dist_lib_line(model, rmgaps, "0", "0", gamma, alpha, "-1,-1,-1,-1", rows)
                 libs.append((rows, _worker_run(os.path.join(BUILD, "harness"), [(0, line)], 20.0).get(0, "?")))
             argv = ["compute", "distance", "-m", model, "-p", "-t", threads]
             if rmgaps == "1":
@@ -577,15 +607,7 @@ def run_det_case(c, timeout_s=120.0):
                         return
                     for j, txt in enumerate(f[1:]):
                         x = mat[i][j]
-                        if x != x:
-                            ok = txt == "NaN"
-                        elif x in (float("inf"), float("-inf")):
-                            ok = txt in ("+Inf", "-Inf", "Inf") and (txt.startswith("-") == (x < 0))
-                        else:
-                            try:
-                                ok = abs(float(txt) - x) <= 5.1e-13 * max(1.0, abs(x))
-                            except ValueError:
-                                ok = False
+                        ok = _dist_entry_ok(txt, x)
                         if not ok:
                             c.impl = "differ matrix %d entry %d,%d library=%r command-line=%s" % (k, i, j, x, txt)
                             return
@@ -600,7 +622,8 @@ def run_det_case(c, timeout_s=120.0):
             rows, model, rmgaps, gapmode, rmamb, alpha, r1, r2 = [str(x) for x in c.args[:8]]
             gamma = "0" if alpha == "0" else "1"
             rng4 = "-1,-1,-1,-1" if r1 == "_" else "%s,%s" % (r1.replace(":", ","), r2.replace(":", ","))
-            line = "\t".join(["distmatrix", model, rmgaps, gapmode, rmamb, gamma, alpha if alpha != "0" else "1", "_", rng4, rows])
+            average = len(c.args) > 8 and str(c.args[8]) == "avg"
+            line = _dist_lib_line(model, rmgaps, gapmode, rmamb, gamma, alpha, rng4, rows)
             lib = _worker_run(os.path.join(BUILD, "harness"), [(0, line)], 20.0).get(0, "?")
             argv = ["compute", "distance", "-m", model]
             if rmgaps == "1":
@@ -614,6 +637,8 @@ def run_det_case(c, timeout_s=120.0):
                 argv += ["--alpha", repr(float(num) / float(den))]
             if r1 != "_":
                 argv += ["--range1", r1, "--range2", r2]
+            if average:
+                argv.append("-a")
             fa = "".join(">%s\n%s\n" % tuple(r.split(":", 1)) for r in rows.split(","))
             cli = exec_goalign(argv, fa.encode(), {}, timeout_s)
             if not lib.startswith("ok "):
@@ -626,6 +651,21 @@ def run_det_case(c, timeout_s=120.0):
             mat = [[_st.unpack(">d", bytes.fromhex(x))[0] for x in r.split(",")] for r in lib[3:].split(";")]
             lines = [l for l in cli[1].decode("utf-8", "replace").split("\n") if l != ""]
             names = [r.split(":", 1)[0] for r in rows.split(",")]
+            if average:
+                # -a: writeDistAverage's mean of the entries above the diagonal that are not NaN, 12 decimals
+                tot, cnt = 0.0, 0
+                for i in range(len(mat)):
+                    for j in range(i + 1, len(mat)):
+                        if mat[i][j] == mat[i][j]:
+                            tot += mat[i][j]
+                            cnt += 1
+                if cnt == 0:
+                    ok = lines == ["NaN"]
+                else:
+                    x = tot / cnt
+                    ok = len(lines) == 1 and _dist_entry_ok(lines[0], x)
+                c.impl = ("same rc=0 out=%d files=0" % len(cli[1])) if ok else "differ average library=%r command-line=%r" % (tot / cnt if cnt else "NaN", lines[:2])
+                return
             if len(lines) != len(mat) + 1 or lines[0].strip() != str(len(mat)):
                 c.impl = "differ shape"
                 return
@@ -636,15 +676,7 @@ def run_det_case(c, timeout_s=120.0):
                     return
                 for j, txt in enumerate(f[1:]):
                     x = mat[i][j]
-                    if x != x:
-                        ok = txt == "NaN"
-                    elif x in (float("inf"), float("-inf")):
-                        ok = txt in ("+Inf", "-Inf", "Inf") and (txt.startswith("-") == (x < 0))
-                    else:
-                        try:
-                            ok = abs(float(txt) - x) <= 5.1e-13 * max(1.0, abs(x))
-                        except ValueError:
-                            ok = False
+                    ok = _dist_entry_ok(txt, x)
                     if not ok:
                         c.impl = "differ entry %d,%d library=%r command-line=%s" % (i, j, x, txt)
                         return
@@ -675,6 +707,26 @@ def run_det_case(c, timeout_s=120.0):
                 c.impl = "differ stdout"
                 return
             c.impl = "same rc=0 out=%d files=1" % len(plain[3].get("out.txt", b""))
+        elif c.op == "detannot":
+            # detannot <alignment> <annotation text> <argv… with @ANN@ where the annotation file is named>: a command that reads
+            # a second input file must give the same bytes (exit status, stdout, files written) whether that file is plain,
+            # gzip-compressed (`.gz`), or given on the standard input (then the alignment comes from `-i aln.fa`)
+            import gzip as _gz
+            ann = b"" if c.args[1] == "_" else _unesc(c.args[1])
+            argv = [str(a) for a in c.args[2:]]
+            sub = lambda nm: [nm if a == "@ANN@" else a for a in argv]      # noqa: E731
+            runs = [("plain", exec_goalign(sub("ann.txt"), stdin, {"ann.txt": ann}, timeout_s)),
+                    ("gz", exec_goalign(sub("ann.txt.gz"), stdin, {"ann.txt.gz": _gz.compress(ann, mtime=0)}, timeout_s)),
+                    ("stdin", exec_goalign(sub("stdin") + ["-i", "aln.fa"], ann, {"aln.fa": stdin}, timeout_s))]
+            base = runs[0][1]
+            for nm, r in runs[1:]:
+                if r[0] != base[0]:
+                    c.impl = "differ exit-status plain=%s %s=%s" % (base[0], nm, r[0])
+                    return
+                if base[0] == 0 and (r[1] != base[1] or r[3] != base[3]):
+                    c.impl = "differ %s plain vs %s" % (_where((base[0], base[1], b"", base[3]), (r[0], r[1], b"", r[3])), nm)
+                    return
+            c.impl = "same rc=%s out=%d files=%d" % (base[0], len(base[1]) if base[0] == 0 else 0, len(base[3]) if base[0] == 0 else 0)
         elif c.op == "detchain":
             chain = c.args[1].split(",")
             r0 = exec_goalign(["reformat", chain[0]], stdin, {}, timeout_s)
